@@ -643,6 +643,10 @@ def t_decl_forms(rng, u, info):
                     "<?xml version=1.0?>", "<?xml version '1.0'?>", "<?xml version='1.0\"?>",
                     "<?xml version='1.0' standalone='yes' encoding='UTF-8'?>", "<?xml standalone='yes' version='1.0'?>",
                     "<?xml version='1.0' encoding='UTF-8' standalone?>", "<?xml version='1.0' ?x>"])
+    if "'1.0\"" in d:
+        # the version value runs on to the next apostrophe: a repaired scanner (VersionNum syntax check, fix for F43)
+        # reports UnsupportedXMLVersion first, the unrepaired one a later error: held to the verdict only
+        return S(d) + u, "code-free"
     return S(d) + u
 
 
